@@ -138,7 +138,7 @@ fn k_half4_roundtrip() {
 //@unit props=C06,C07 label=P tier=quick fn=model_file_operations::MDL::{read_byte4,write_byte4,read_unsigned_short4,read_single3,write_single3,read_single4,write_single4}
 //@desc raw readers return the stored bytes / LE u16 / LE f32 bit patterns and consume 4/8/12/16 bytes; the writers reproduce the bytes bit-exactly
 #[kani::proof]
-#[kani::unwind(6)]
+#[kani::unwind(18)]
 fn k_raw_attribute_codecs() {
     let b: [u8; 16] = kani::any();
     let mut c = Cursor::new(&b[..]);
